@@ -525,3 +525,14 @@ def r10_uniqueness(ctx: Ctx) -> None:
         ctx.check(ok, meth, f"parser:Parser.{meth}", "duplicate names accepted",
                   f"{what}, but {meth} accepts duplicate names: CPython rejects the generated module with builtins.SyntaxError", fi.loc(),
                   detail={"method": meth, "obligation": what})
+    # the compiler adds its own keywords (caller, _loop_vars, _block_vars) next to the template's
+    sig = repo.func("compiler:CodeGenerator.signature")
+    ok = False
+    for c in astq.calls(sig.node):
+        if astq.callee(c) == "self.fail":
+            for g, pol in astq.guard_texts(sig.node, c):
+                if pol and "in extra_kwargs" in g and ".key" in g:
+                    ok = True
+    ctx.check(ok, "signature:extra_kwargs", "compiler:CodeGenerator.signature", "reserved keyword collision accepted",
+              "signature() writes the template's keyword arguments and the compiler's extra_kwargs into one call without rejecting a name used by both: `{% call m(caller=1) %}` yields builtins.SyntaxError (keyword argument repeated)",
+              sig.loc(), detail={"obligation": "template kwargs and extra_kwargs are disjoint"})
